@@ -111,6 +111,16 @@ Theorem C02_reject_is_403_and_silent :
    status_of body_kind r (q_body q) = 403%N).
 Proof. exact @reject_is_403_and_silent. Qed.
 
+(* "No event reaches any client" without the MAC: whatever is handed to the room handlers
+   or delivered to a client of backend b comes from a request authenticated as b. *)
+Theorem C02_event_needs_mac :
+  forall hmac url (url_parse : bytes -> option url) get_backend body_kind cfg th t a q th' r b,
+  handle hmac url_parse get_backend cfg th t a q = (th', r) ->
+  published body_kind r (q_body q) = Some b \/ client_event body_kind r (q_body q) = Some b ->
+  r = RAuth b /\ resolve hmac url_parse get_backend cfg q = Some b /\
+  q_chk q = hex (hmac (b_secret b) (q_rnd q ++ q_body q)).
+Proof. exact @event_needs_mac. Qed.
+
 (* A refused checksum (or unknown backend) is recorded as a failure of the address. *)
 Theorem C02_reject_feeds_throttle :
   forall hmac url (url_parse : bytes -> option url) get_backend cfg th t a q th' d,
@@ -266,6 +276,7 @@ Print Assumptions C02_other_secret_needs_collision.
 Print Assumptions C02_unknown_backend_refused.
 Print Assumptions C02_fallback_order_irrelevant.
 Print Assumptions C02_reject_is_403_and_silent.
+Print Assumptions C02_event_needs_mac.
 Print Assumptions C02_reject_feeds_throttle.
 Print Assumptions C02_tamper.
 Print Assumptions C02_concat_not_injective.
